@@ -71,8 +71,12 @@ func (p *{{.Type}}[U]) act(id int, text string, begin, end int) {
 }
 func (p *{{.Type}}[U]) actI(id int, text string) {
 	p.Trace = append(p.Trace, Ev{K: "act", ID: id, Text: text})
+	p.Events = append(p.Events, Ev{K: "act", ID: id, Text: text})
 }
-func (p *{{.Type}}[U]) actN(id int) { p.Trace = append(p.Trace, Ev{K: "act", ID: id}) }
+func (p *{{.Type}}[U]) actN(id int) {
+	p.Trace = append(p.Trace, Ev{K: "act", ID: id})
+	p.Events = append(p.Events, Ev{K: "act", ID: id})
+}
 func (p *{{.Type}}[U]) note(id, pos int) {
 	p.Events = append(p.Events, Ev{K: "note", ID: id, B: pos})
 }
